@@ -24,7 +24,8 @@ NOT_C02 = {"R.cred-type", "R.bs-without-be", "R.tb-not-supported", "R.at-clear-d
 # deviations applied by this harness around the simulator (X. = expectation-side)
 HARNESS_FAULTS = ["X.origin-is-proper-prefix-of-expected", "X.origin-is-infix-of-expected", "X.alg-not-allowed",
                   "X.alg-unregistered-not-allowed", "X.uv-clear-required-up-waived", "X.origin-list-lacks-it",
-                  "X.expected-origin-has-trailing-slash", "X.expected-origin-has-surrounding-space"]
+                  "X.expected-origin-has-trailing-slash", "X.expected-origin-has-surrounding-space",
+                  "X.expected-origin-ipv6-literal-read-as-glob", "X.expected-origin-star-read-as-glob", "X.expected-origin-qmark-read-as-glob"]
 
 
 def work(tasks, idx):
@@ -41,6 +42,13 @@ def work(tasks, idx):
             kw["origin"] = "example"
         if "X.uv-clear-required-up-waived" in xs:
             sim_fs = sim_fs + ("R.uv-clear",)
+        # expected origins that contain characters some matcher gives a meaning to: they are plain strings to compare
+        GLOBS = {"X.expected-origin-ipv6-literal-read-as-glob": ("https://[::1]:8443", "https://1:8443"),
+                 "X.expected-origin-star-read-as-glob": ("https://*.example.com", "https://login.example.com"),
+                 "X.expected-origin-qmark-read-as-glob": ("https://example.co?", "https://example.com")}
+        glob = next((GLOBS[x] for x in xs if x in GLOBS), None)
+        if glob:
+            kw["origin"] = glob[1]
         if "R.rpid-hash-of-lowercase" in sim_fs or "R.rpid-hash-of-idna-form" in sim_fs:
             kw["rp_id"] = "B\u00fccher.Example"         # an expected RP ID for which those other strings exist
             kw["origin"] = "https://b\u00fccher.example"
@@ -62,6 +70,8 @@ def work(tasks, idx):
         if "X.origin-list-lacks-it" in xs:
             over["origin"] = ["https://a.example", req.origin + "x", "x" + req.origin]
         # the policy names a *different string* than the one the client reports: exactness is the rule, in both forms
+        if glob:
+            over["origin"] = glob[0] if variant % 2 else [glob[0], "https://other.example"]
         if "X.expected-origin-has-trailing-slash" in xs:
             over["origin"] = req.origin + "/" if variant % 2 else [req.origin + "/"]
         if "X.expected-origin-has-surrounding-space" in xs:
